@@ -42,9 +42,10 @@ func (*c02) Rule() string {
 		"(ConfigMap/Secret/ServiceAccount): per key a role (kept in both manifests with changed/added/dropped fields, added, removed, bystander), " +
 		"live object = stamped original with drift on specified fields, foreign fields, missing fields, missing object; keep policy toggled " +
 		"independently on the original, the target and the live object (keep / other value / absent); 8% adversarial (target live but not in " +
-		"original, duplicate target keys, empty lists). 60%: fault-free histories of 1-6 real operations (install/upgrade/rollback/uninstall, " +
+		"original, duplicate target keys, empty lists). 60%: histories of 1-6 real operations (install/upgrade/rollback/uninstall, " +
 		"random flags, hooks, keep policies in the manifests) with out-of-band edits/deletions of live objects between operations, on " +
-		"memory/Secret/ConfigMap storage. non-trivial = the call (or at least two operations of the history) changed the object store; " +
+		"memory/Secret/ConfigMap storage; half of the histories also contain failing operations (about every fourth operation gets a rejected " +
+		"request on one resource, a failing hook or a failing wait). non-trivial = the call (or at least two operations of the history) changed the object store; " +
 		"distinct = hash of (case, observation)"
 }
 
@@ -115,6 +116,27 @@ func (*c02) Corpus() []any {
 	up3b := c02Op("upgrade", 3, eng.Flags{}, cm("a", "d:k", "v3"))
 	up3b.Hooks = []eng.Hook{{Res: cm("hk", "d:h", "0"), Events: []string{"pre-upgrade"}, Policies: []string{"hook-succeeded"}}}
 	hist(op(c02Op("install", 1, eng.Flags{}, cm("a", "d:k", "v1"))), op(up2b), op(up3b), op(c02Op("rollback", 0, eng.Flags{Version: 1})))
+	// a FAILED upgrade in the middle: r1 {a,b} deployed; r2 {a} fails on its pre-upgrade hook before anything is
+	// applied (injected hook failure / fault-free: the hook object already exists) or after everything was applied
+	// (wait fails); r3 {a} succeeds and must be diffed against the still-deployed r1, so b goes
+	gate := []eng.Hook{{Res: cm("gate", "d:h", "0"), Events: []string{"pre-upgrade"}}}
+	for variant := 0; variant < 3; variant++ {
+		i1 := c02Op("install", 1, eng.Flags{}, cm("a", "d:k", "v1"), cm("b", "d:k", "v1"))
+		u2 := c02Op("upgrade", 2, eng.Flags{}, cm("a", "d:k", "v2"))
+		u3 := c02Op("upgrade", 3, eng.Flags{}, cm("a", "d:k", "v3"))
+		switch variant {
+		case 0:
+			u2.Hooks = gate
+			u2.HFault = &eng.HFault{Name: "gate"}
+		case 1:
+			i1.Hooks = []eng.Hook{{Res: cm("gate", "d:h", "0"), Events: []string{"post-install"}, Policies: []string{"hook-failed"}}}
+			u2.Hooks = []eng.Hook{{Res: cm("gate", "d:h", "0"), Events: []string{"pre-upgrade"}, Policies: []string{"hook-failed"}}}
+		case 2:
+			u2 = c02Op("upgrade", 2, eng.Flags{}, cm("a", "d:k", "v2"), cm("b", "d:k", "v2"), cm("c", "d:k", "v2"))
+			u2.WaitFail = true
+		}
+		hist(op(i1), op(u2), op(u3), op(c02Op("uninstall", 0, eng.Flags{})))
+	}
 	out = append(out, kubeCorpus()...)
 	return out
 }
@@ -131,7 +153,46 @@ func (*c02) Generate(r *rand.Rand, _ int) any {
 		return c02Case{Kube: genKubeCase(r)}
 	}
 	h := eng.GenHistory(r, eng.GenOpts{KeepPolicies: true, Edits: true, Flags: true, Hooks: 1})
+	// half of the histories also contain FAILING operations: a rejected request, a failing hook or a failing
+	// wait on about every fourth operation (the property quantifies over histories of successful and failed
+	// operations; its sentences are evaluated after the successful, unfaulted ones)
+	if r.Intn(2) == 0 {
+		var prevKeys []string
+		for _, s := range h.Steps {
+			if s.Op == nil {
+				continue
+			}
+			if r.Intn(4) == 0 {
+				c02Fault(r, s.Op, prevKeys)
+			}
+			for _, m := range s.Op.Manifest {
+				prevKeys = append(prevKeys, m.Key())
+			}
+		}
+	}
 	return c02Case{Hist: &h}
+}
+
+// c02Fault attaches one cluster-side fault to the operation.
+func c02Fault(r *rand.Rand, op *eng.Op, prevKeys []string) {
+	switch x := r.Intn(10); {
+	case x < 2:
+		op.WaitFail = true
+	case x < 6 && len(op.Hooks) > 0:
+		h := op.Hooks[r.Intn(len(op.Hooks))]
+		op.HFault = &eng.HFault{Name: h.Res.Name}
+	default:
+		var keys []string
+		for _, m := range op.Manifest {
+			keys = append(keys, m.Key())
+		}
+		keys = append(keys, prevKeys...)
+		if len(keys) == 0 {
+			op.WaitFail = true
+			return
+		}
+		op.KFault = &eng.KFault{Verb: []string{"create", "patch", "delete", "get"}[r.Intn(4)], Key: keys[r.Intn(len(keys))]}
+	}
 }
 
 func (*c02) Execute(ci any) any {
